@@ -65,6 +65,19 @@ func (m *model) blocked() bool {
 	return s < m.min
 }
 
+// state is what the statement's three conditions say about the history: no full window yet
+// (Probing), a full window with too few successes (Blocked), a full window with enough (Allowed,
+// the "known-good" state a read-only detector requires).
+func (m *model) state() string {
+	switch {
+	case len(m.w) < m.n:
+		return "Probing"
+	case m.blocked():
+		return "Blocked"
+	}
+	return "Allowed"
+}
+
 func (m *model) record(success bool) {
 	if m.blocked() && success {
 		m.w = m.w[:0] // "a single success while blocked clears the state"
@@ -308,6 +321,11 @@ func (cp *counterPair) drive(seq []ev) string {
 			cp.c.RecordResult(e == evSucc)
 			cp.m.record(e == evSucc)
 		}
+		// the reported state (what a read-only detector goes by) follows the history too; Blocked may
+		// only be reported when the history justifies it, and a window that is not full is never known-good
+		if got, want := cp.c.State().String(), cp.m.state(); got != want && (got == "Allowed" || want == "Allowed" || got == "Blocked") {
+			return fmt.Sprintf("State() = %s, the history gives %s (|W|=%d N=%d min=%d W=%v)", got, want, len(cp.m.w), cp.m.n, cp.m.min, cp.m.w)
+		}
 	}
 	return ""
 }
@@ -434,7 +452,8 @@ func TestFilterThroughSwarm(t *testing.T) {
 					}
 				}
 				uBlocked, sBlocked := udp.m.blocked(), ip6.m.blocked()
-				uAllowedState, sAllowedState := udp.c.State().String() == "Allowed", ip6.c.State().String() == "Allowed"
+				// known-good is read from the history, not from the counter under test
+				uAllowedState, sAllowedState := udp.m.state() == "Allowed", ip6.m.state() == "Allowed"
 				if uBlocked || sBlocked {
 					reached = true
 				}
